@@ -233,16 +233,19 @@ def mixed_strategy(draw, tier):
     xtopics = draw(st.sampled_from([['e0', 'e1'], ['e0', 'e1', 'e2'], ['e0', '_h', 'e1']]))
     form = draw(st.sampled_from(['all', 'list', 'list', 'star']))
     sub = {'form': form} if form != 'list' else {'form': 'list', 'pairs': [[t, t] for t in draw(st.lists(st.sampled_from(xtopics), min_size=2, max_size=3, unique=True))]}
+    if draw(st.integers(0, 4)) == 0:
+        sub = {'form': 'list', 'pairs': [['nosuch', 'nosuch']]}      # the listener asks for a topic the ephemeral publisher never sends: all it ever sees of it are heartbeats
     return {
         'n': n, 'xtopics': xtopics, 'sub': sub, 'mark': draw(st.sampled_from(['?', '?', '??'])),
         'other': draw(st.sampled_from(['sync', 'sync', 'eph'])),       # what else the receiver listens to
+        'x_driver': draw(st.booleans()),        # the ephemeral publisher has a fast synchronized consumer of its own: it streams at its own pace, not at the listener's
         'xkind': draw(st.sampled_from(['src', 'rejoin'])),              # the ephemeral publisher: an independent source / an ephemeral branch of S
         'src_work': draw(st.lists(scen.src_work_ms, min_size=1, max_size=2)),
         'x_work': draw(st.lists(scen.src_work_ms, min_size=1, max_size=3)),
         'k_work': draw(st.lists(scen.work_ms, min_size=1, max_size=2)),
         'net': {**draw(scen.net_strategy(max_drops=0)), 'keyed': draw(st.booleans()),
                 # publishes of the ephemeral source that never reach the listener (PUB/SUB may drop towards a slow or still connecting subscriber)
-                'drops_to': [['X', 'K', i] for i in sorted(draw(st.sets(st.integers(0, 40), max_size=4)))]},
+                'drops_to': [['X', 'K', i] for i in sorted(draw(st.sets(st.integers(0, 40), max_size=4)))] if draw(st.booleans()) else []},
         # some of X's messages carry only part of its topics
         'x_topics_by_seq': {str(k): draw(st.lists(st.sampled_from(xtopics), min_size=1, max_size=len(xtopics), unique=True))
                             for k in draw(st.sets(st.integers(0, 12), max_size=4))},
@@ -256,11 +259,13 @@ def run_mixed(case):
     st_ = case['starts']
     nodes = [{'id': 'S', 'beh': {'kind': 'src', 'n': case['n'], 'work': case['src_work']}, 'required': ['K'] if case['other'] == 'sync' else [], 'start': st_[0]}]
     if case['xkind'] == 'src':
-        nodes.append({'id': 'X', 'beh': {'kind': 'src', 'n': case['n'] * 3, 'work': case['x_work'], 'topics': case['xtopics'],
+        nodes.append({'id': 'X', 'beh': {'kind': 'src', 'n': case['n'] * 3 if not case.get('x_driver') else 1500, 'work': case['x_work'], 'topics': case['xtopics'],
                                          'topics_by_seq': case.get('x_topics_by_seq')}, 'start': st_[1]})
     else:
         nodes.append({'id': 'X', 'sources': ['S?'], 'beh': {'kind': 'xf', 'work': case['x_work'], 'topics': case['xtopics'],
                                                             'topics_by_seq': case.get('x_topics_by_seq')}, 'start': st_[1]})
+    if case.get('x_driver'):
+        nodes.append({'id': 'G', 'sources': ['X'], 'nout': 0, 'beh': {'kind': 'sink', 'work': [0]}, 'start': st_[1]})
     nodes.append({'id': 'K', 'sources': ['S' if case['other'] == 'sync' else 'S?', 'X' + case['mark'] + scen.sub_suffix(case['sub'])], 'nout': 0,
                   'beh': {'kind': 'sink', 'work': case['k_work']}, 'start': st_[2]})
     p = harness.Pipeline(nodes, net=case['net'], seed=9, ipc=case.get('ipc', False))
@@ -271,7 +276,7 @@ def run_mixed(case):
             c = p.process_calls('K')
             return bool(c) and any(pv and pv.get('origin') == 'S' and pv.get('seq') == case['n'] - 1 and 'main' == t for t, pv in c[-1]['in'].items()) \
                 and p.world.now > c[-1]['t'] + 300_000_000
-        p.run(20_000 + case['n'] * 600, stop=done)
+        p.run(9_000 + case['n'] * 300, stop=done)
         calls, pubs = p.process_calls('K'), p.publishes()
         raised = [(k, e) for k, e in p.ends.items() if e['how'] == 'raised']
     finally:
@@ -286,6 +291,19 @@ def run_mixed(case):
                 pubtopics.setdefault((r['inc'], r['mid']), set()).update(r['topics'])
             if r['uid']:
                 uid2pub[r['uid']] = (r['inc'], r['mid'], r['topic'].strip('/'))
+    # (not judged when publishes of X towards K are lost: a half-received ephemeral set that is never completed - the source pausing right after a
+    # lost message - holds K's recv() and with it its synchronized stream; that is a hazard of ephemeral *sources*, outside what C05 states about
+    # ephemeral consumers, see DESIGN section 8)
+    if case['other'] == 'sync' and not case['net'].get('drops_to'):     # the synchronized stream must arrive whole, whatever the ephemeral source does or does not send
+        sseq = [pv['seq'] for rec in calls for t, pv in rec['in'].items() if t == 'main' and pv and pv.get('origin') == 'S']
+        if sseq != list(range(case['n'])):
+            return bad(f'K received {len(sseq)} of the {case["n"]} frames of its synchronized source S (last {sseq[-1] if sseq else None}) while its ephemeral source X kept publishing: '
+                       f'the synchronized stream was held up', 'mixed-receiver:sync-stream-stalled', classes)
+        t_last = max(rec['t'] for rec in calls if any(t == 'main' and pv and pv.get('origin') == 'S' for t, pv in rec['in'].items())) / 1e6
+        limit = max(case['starts']) + case['n'] * (max(case['src_work']) + max(case['k_work']) + 110) + 2500      # generous: one request interval per frame on top of the work
+        if t_last > limit and case['net']['cls'] in ('fast', 'lan', 'sub_poll'):     # with link delays above the request interval the stream is latency-bound, no fixed pace to hold it to
+            return bad(f'K got the last frame of its synchronized source at {t_last:.0f} ms (a run of {case["n"]} frames, expected well before {limit} ms) while its ephemeral source X '
+                       f'kept publishing: the synchronized stream was held up', 'mixed-receiver:sync-stream-late', classes)
     last, with_x, with_both, alone = None, 0, 0, 0
     for rec in calls:
         got = {t: uid2pub[pv['uid']] for t, pv in rec['in'].items() if pv and pv.get('uid') in uid2pub}
@@ -311,7 +329,8 @@ def run_mixed(case):
     if case.get('x_topics_by_seq'): classes.append('ephemeral publisher varies its topics')
     if with_both: classes.append('ephemeral set delivered together with a synchronized frame')
     if alone: classes.append('ephemeral set delivered alone')
-    return ok(with_x >= 3 and len(calls) >= 5, classes, {'sets': len(calls), 'with_ephemeral': with_x, 'together': with_both})
+    if case.get('x_driver'): classes.append('ephemeral publisher streams at its own pace')
+    return ok((with_x >= 3 or case['sub'].get('pairs') == [['nosuch', 'nosuch']]) and len(calls) >= 5, classes, {'sets': len(calls), 'with_ephemeral': with_x, 'together': with_both})
 
 
 # ---- part 3: a synchronized consumer that also has an ephemeral source stays a synchronized consumer ---------------------------------
